@@ -129,9 +129,12 @@ def h_first_message(S, B):
         S.known("C08-validator-raising-ConnectionClosedError-gets-no-connectfail",
                 And(validator == "raise-ConnectionClosedError", msgtype == protocol.MSG_CONNECT, ser_known,
                     payload_kind in ("ok", "no-object-key")), checks=["refusal-sends-connectfail"])
-        # a reply can be encoded for the peer iff a serializer for it is known and the reason is printable
+        # every refusal is answered (in the built-in serializer if need be); only a reason that cannot be printed
+        # cannot be carried
         validator_runs = And(msgtype == protocol.MSG_CONNECT, ser_known, payload_kind in ("ok", "no-object-key"))
-        must_reply = And(Or(msgtype != protocol.MSG_CONNECT, ser_known), Or(printable, Not(validator_runs)))
+        must_reply = Or(printable, Not(validator_runs))
+        S.known("C08-connect-with-an-unknown-serializer-id-gets-no-connectfail",
+                And(msgtype == protocol.MSG_CONNECT, Not(ser_known)), checks=["refusal-sends-connectfail"])
         if len(replies) == 0:
             S.check("refusal-sends-connectfail", Not(must_reply))
         else:
